@@ -262,6 +262,11 @@ class Probe:
                 out.append(('eexc', e))
         return out
 
+    def session(self):
+        """One Executor (one instance of the generated class) for a whole SEQUENCE of evaluations: whatever the runtime keeps on the
+        instance between calls is kept. Every step must override all the cells its formulas read (earlier overrides stay in force)."""
+        return _Session(self)
+
     def eval_at(self, overrides, cells):
         """Evaluate arbitrary (sheet,col,row) cells."""
         ov = [Cell(o[0], o[1], o[2], o[3]) for o in overrides] if overrides else None
@@ -270,6 +275,37 @@ class Probe:
         for (s, c, r) in cells:
             try:
                 out.append(('val', ex.get_cell(Cell(s, c, r)).value))
+            except BaseException as e:  # noqa
+                if isinstance(e, (KeyboardInterrupt, SystemExit)):
+                    raise
+                out.append(('eexc', e))
+        return out
+
+
+class _Session:
+    def __init__(self, probe):
+        self.p = probe
+        self.ex = fresh_executor(probe.klass) if probe.klass is not None else None
+
+    def eval(self, overrides=None, idxs=None):
+        p = self.p
+        idxs = range(len(p.formulas)) if idxs is None else idxs
+        if self.ex is None:
+            return [('texc', p.load_err) for _ in idxs]
+        try:
+            if overrides:
+                self.ex.set_cells([Cell(o[0], o[1], o[2], o[3]) for o in overrides])
+        except BaseException as e:  # noqa
+            if isinstance(e, (KeyboardInterrupt, SystemExit)):
+                raise
+            return [('eexc', e) for _ in idxs]
+        out = []
+        for i in idxs:
+            if p.terr[i] is not None:
+                out.append(('texc', p.terr[i]))
+                continue
+            try:
+                out.append(('val', self.ex.get_cell(Cell(0, p.col, i)).value))
             except BaseException as e:  # noqa
                 if isinstance(e, (KeyboardInterrupt, SystemExit)):
                     raise
